@@ -87,4 +87,10 @@ MUTANTS += [
         for dst, src in enumerate(order):
             parallel_list[dst] = entries[src]
     glyphs[:] = [glyphs[i] for i in order]""")]),
+    dict(id="c11-break-in-rule-loop", props=["C11", "C12"], expect="R11f",
+         edits=[dict(file="reorder_glyphs.py", old="                    reorder.apply(font, value)", new="                    reorder.apply(font, value)\n                    break")]),
+    dict(id="c11-return-after-first-table", props=["C11"], expect="R11f",
+         edits=[dict(file="reorder_glyphs.py", old="                for reorder in _REORDER_RULES.get(reorder_key, []):\n                    reorder.apply(font, value)", new="                for reorder in _REORDER_RULES.get(reorder_key, []):\n                    reorder.apply(font, value)\n            return")]),
+    dict(id="c11-benign-continue-trivial-coverage", props=["C11", "C12"], expect="silent",
+         edits=[dict(file="reorder_glyphs.py", old="            for coverage_entry in coverage:\n", new="            for coverage_entry in coverage:\n                if len(coverage_entry.glyphs) < 2:\n                    continue\n")]),
 ]
